@@ -572,7 +572,7 @@ def gen_malformed(rng):
         return STR(fmt), L(args), kind, tags
     if kind == "toomany":
         fmt, args, tags = assemble(pieces)
-        args = args + [gen_term(rng, 1) for _ in range(rng.randrange(1, 3))]
+        args = args + [gen_term(rng, 1) for _ in range(rng.randrange(1, 5))]
         return STR(fmt), L(args), kind, tags
     if kind == "argsnotlist":
         fmt, args, tags = assemble(pieces)
